@@ -232,6 +232,11 @@ func (fr *Frame) callWith(cc *ssa.CallCommon, site ssa.Instruction, st *State, g
 			return fr.applyContract(ct, nil, cc.Method.Name(), append([]Val{recv}, args...), cc.Signature(), cc.Value.Type(), st, g, site, resType)
 		}
 		ng := fr.nilCheck(recv, g, st, cc.Pos(), "method call on nil interface")
+		if (cc.Method.Name() == "Error" || cc.Method.Name() == "String") && cc.Signature().Params().Len() == 0 {
+			// conventional: error.Error() / Stringer.String() only format their receiver (assumption, listed)
+			c.trustedUsed["interface method assumed effect-free: "+cc.Method.Name()+"()"] = true
+			return c.freshVal(st, orG(ng, g), resType, "str"), ng
+		}
 		name := "invoke " + types.TypeString(cc.Value.Type(), nil) + "." + cc.Method.Name()
 		return fr.havocCall(name, st, orG(ng, g), resType), ng
 	}
@@ -292,6 +297,13 @@ func (c *Ctx) ifaceContract(cc *ssa.CallCommon) *Contract {
 			return ct
 		}
 	}
+	// embedded / anonymous interfaces: the contract is keyed by the package declaring the method: "iface _.Method"
+	if cc.Method.Pkg() != nil {
+		key := cc.Method.Pkg().Path() + "::iface _." + cc.Method.Name()
+		if ct, ok := c.prog.Contracts[key]; ok {
+			return ct
+		}
+	}
 	return nil
 }
 
@@ -326,7 +338,16 @@ func (fr *Frame) callFunc(fn *ssa.Function, args []Val, st *State, g *Term, site
 			return fr.inline(fn, args, nil, st, g, resType)
 		}
 	}
-	// 4. unknown
+	// 4. inferred frame: effect-free by the syntactic analysis -> heap untouched, result unconstrained
+	if c.prog.effectFree(fn) {
+		c.effectFreeUsed[full] = true
+		an := c.allocName()
+		oldA := c.heapGet(st, an)
+		nv := c.heapHavoc(st, an)
+		c.assumeG(g, tGe(nv, oldA))
+		return c.freshVal(st, g, resType, "ef."+sanitize(fn.Name())), nil
+	}
+	// 5. unknown
 	return fr.havocCall(full, st, g, resType), nil
 }
 
@@ -577,7 +598,7 @@ func (c *Ctx) modTargets(e *Env, x Expr) (names []string, points [][]*Term) {
 		if g, ok := c.prog.Ghosts[n.Fn]; ok {
 			var idx []*Term
 			for _, a := range n.Args {
-				idx = append(idx, e.eval(a).T)
+				idx = append(idx, c.wrapKey(e.eval(a).T))
 			}
 			return []string{c.ghostName(g, e)}, [][]*Term{idx}
 		}
